@@ -216,13 +216,13 @@ func (e *kvElection) handleHeartbeatFailure(err error) {
 		)...,
 	)
 
-	e.becomeFollower()
+	wasLeader := e.becomeFollower()
 
 	e.mu.RLock()
 	onDemote := e.onDemote
 	e.mu.RUnlock()
 
-	if onDemote != nil {
+	if onDemote != nil && wasLeader {
 		log.Info("leader_demoted",
 			append(e.logWithContext(e.ctx),
 				zap.String("reason", "heartbeat_failure"),
@@ -241,13 +241,13 @@ func (e *kvElection) handleHealthCheckFailure() {
 		)...,
 	)
 
-	e.becomeFollower()
+	wasLeader := e.becomeFollower()
 
 	e.mu.RLock()
 	onDemote := e.onDemote
 	e.mu.RUnlock()
 
-	if onDemote != nil {
+	if onDemote != nil && wasLeader {
 		log.Info("leader_demoted",
 			append(e.logWithContext(e.ctx),
 				zap.String("reason", "health_check_failure"),
